@@ -37,7 +37,13 @@ LingerScripts == IF Linger = 0 THEN {} ELSE
 LifetimeScripts == IF Lifetime = 0 THEN {} ELSE
     {<<OpenSt, St("next", 0, 1, 0), St("tick", 0, 0, Lifetime * 10 - g[1]), St("housekeep", 0, 0, 0),
        St("tick", 0, 0, g[2]), w, St("next", 0, 1, 0)>> : g \in Gaps, w \in Waker}
+\* a client that came back within the linger period goes on for longer than that period: the stream is its own again, the
+\* earlier disconnect no longer counts
+ResumeScripts == IF Linger = 0 THEN {} ELSE
+    {<<OpenSt, St("next", 0, 1, 0), St("disconnect", 1, 0, 0), St("tick", 0, 0, g), St("reconnect", 1, 0, 0), St("next", 0, 1, 0),
+       St("tick", 0, 0, Linger * 10 - 2), w, St("tick", 0, 0, 7), St("housekeep", 0, 0, 0), St("next", 0, 1, 0), St("next", 0, 1, 0)>> :
+         g \in {5, 12}, w \in Waker}
 SInit == h = <<>> /\ nopen = 0
 SNext == /\ h = <<>> /\ h' = <<St("end", 0, 0, 0)>> /\ UNCHANGED nopen
-         /\ \A sc \in LingerScripts \cup LifetimeScripts : PrintT("SCRIPT " \o ToJson(sc))
+         /\ \A sc \in LingerScripts \cup LifetimeScripts \cup ResumeScripts : PrintT("SCRIPT " \o ToJson(sc))
 =============================================================================
